@@ -157,9 +157,10 @@ pub async fn run_case(c: Case) -> Result<CaseInfo, Failure> {
         if got.len() > ready {
             return Err(fail(&c, "response-before-handler", format!("{} responses written but only {ready} leading requests completed", got.len())));
         }
-        if !stalled && got.len() < ready {
-            return Err(fail(&c, "response-held-back", format!("{ready} leading requests completed but only {} responses written: {got:?}", got.len())));
-        }
+        // (promptness is not part of the statement: a completed response may still be in the
+        // library's hands at an intermediate point; a response that never appears is caught by the
+        // final check, which adds no further traffic)
+        let _ = stalled;
         if fin && got.len() != expected.len() {
             return Err(fail(&c, "response-lost", format!("final: {} of {} responses written: {got:?}; log {:?}", got.len(), expected.len(), crate::props::c03::brief_log(&eut.app().events()))));
         }
